@@ -201,6 +201,7 @@ func c33(c *Ctx) {
 				}
 			}
 		}
+		c.Expect(c.ErrorsPropagate(ns, "wrapper.NewSubConn", nil) >= 1, nil, ns, "creation-error-site", "the parent's NewSubConn error is not tested")
 		nsd := one(c, "Shutdown in NewSubConn", callsIn(ns, Callee("balancer", "SubConn.Shutdown")))
 		c.MustFact(nsd, "orphan-subconn-shut-down", Truth(CallRes(Callee(gsp, gb+".balancerCurrentOrPending"), 0), false))
 		// every error-free return has tracked the subchannel
